@@ -51,6 +51,8 @@ func c11(w *core.World, r *core.Report) {
 	ruleSlotModeByTargetKind(w, r)
 	r.Rule("R18.9", "bookkeeping keys are placed by a slot tag: the tag table is read only after it was built (shared with C18)", 1)
 	ruleSlotTagTablePublished(w, r)
+	r.Rule("R18.4", "the transaction batcher takes a command's slot from its resolved keys (every key hashed with the client's slot function), not from its first argument (shared with C18)", 4)
+	ruleTxnBatcherValidation(w, r)
 }
 
 func ruleWhoComputesSlots(w *core.World, r *core.Report) []*ssa.Function {
